@@ -79,7 +79,7 @@ pub fn plan(prop: &str, tier: &str) -> Plan {
     let core_q = vec![(2, 3), (3, 5), (4, 6), (3, 7)];
     let core_t = vec![(2, 3), (3, 5), (4, 6), (3, 8), (4, 8), (5, 6), (5, 7), (6, 6)];
     let bounds = match prop {
-        "C07" => {
+        "C07" | "C12" => {
             profile.tree_ops = true;
             if q { core_q } else { core_t }
         }
@@ -284,8 +284,9 @@ fn cmd_sweep(args: &[String]) -> i32 {
         let max_nodes = match (heavy, tier == "quick") {
             (true, true) => 6,
             (true, false) => 7,
-            (false, true) => 8,
-            (false, false) => 9,
+            // (the iterator protocol makes C09's state judge costlier than the others')
+            (false, true) => if prop == "C09" { 7 } else { 8 },
+            (false, false) => if prop == "C09" { 8 } else { 9 },
         };
         let cfg = RunCfg {
             n: max_nodes + 1, a: 64,
@@ -314,13 +315,13 @@ fn cmd_sweep(args: &[String]) -> i32 {
     // arenas reached after some other property was violated on the way
     let mut free_json = json!(null);
     let mut free_unknown = 0usize;
-    if (prop == "C01" || prop == "C02" || prop == "C10" || prop == "C07") && arg(args, "--bounds").is_none()
+    if matches!(prop.as_str(), "C01" | "C02" | "C04" | "C07" | "C08" | "C10" | "C11" | "C12") && arg(args, "--bounds").is_none()
         && !reports.iter().any(|r| r.violations.iter().any(|v| !v.known))
     {
         let (n, a) = if tier == "quick" { (4, 6) } else { (4, 8) };
         // C01 also with payload destructors that panic (a call that unwinds half-way must leave the
         // links consistent), at a smaller bound: such arenas keep nodes whose payload is gone
-        if prop == "C01" || prop == "C10" || prop == "C07" {
+        if prop != "C02" {
             let (bn, ba) = if tier == "quick" { (3, 4) } else { (3, 5) };
             let fb = free::explore(bn, ba, pl.judge.target, threads(), Some(stage_deadline()), true);
             eprintln!(
@@ -356,6 +357,19 @@ fn cmd_sweep(args: &[String]) -> i32 {
             }
         }
         eprintln!("[{prop} {tier}] deep shapes: a chain {n} deep and a node {n} wide traversed by every iterator, {:.1}s", t0.elapsed().as_secs_f64());
+    }
+    if prop == "C08" && arg(args, "--bounds").is_none() {
+        for f in judges::tree_left_early() {
+            free_unknown += emit_simple(&prop, &f.sig, &f.detail, &known, json!({"engine": "tree-left-early"}));
+        }
+    }
+    // C11 / C08: the lookups and the stored values for payload types of every layout
+    if (prop == "C11" || prop == "C08") && arg(args, "--bounds").is_none() {
+        for f in judges::payload_types() {
+            if f.props & pl.judge.target != 0 {
+                free_unknown += emit_simple(&prop, &f.sig, &f.detail, &known, json!({"engine": "payload-types"}));
+            }
+        }
     }
     // C11: the lookup paths over the whole generation range of a slot (the deep history)
     if prop == "C11" && arg(args, "--bounds").is_none() {
@@ -1129,6 +1143,31 @@ fn cmd_deep(args: &[String]) -> i32 {
         println!("  signature: {}\n  observed : {}", f.sig, f.detail);
         deep_viol.push(json!({"cycle": c, "signature": f.sig, "detail": f.detail}));
     }
+    // ---- model-free closure, also with removals that unwind from the middle: no id is issued twice, a
+    // node just created does not report removed, a removal that returns has removed its node
+    let mut free_info = json!(null);
+    if prop == "C06" && unknown == 0 {
+        let mut infos = Vec::new();
+        for (bn, ba, bombs) in [(3usize, if q { 4usize } else { 5 }, true), (4, if q { 6 } else { 7 }, false)] {
+            let fr = free::explore(bn, ba, target, threads(), Some(Instant::now() + Duration::from_secs(600)), bombs);
+            eprintln!("[{prop} {tier}] model-free closure{} ({bn},{ba}): states={} transitions={} exhaustive={} violations={} {:.1}s",
+                if bombs { " with panicking destructors" } else { "" }, fr.states, fr.transitions, fr.exhaustive, fr.violations.len(), fr.wall_s);
+            for (f, path) in &fr.violations {
+                unknown += emit_simple(&prop, &format!("free|{}", f.sig), &format!("after the calls {:?}: {}", path, f.detail), &known, json!({"engine": "free", "init": "Arena::new()", "calls": path}));
+            }
+            infos.push(json!({"bounds": [bn, ba], "panicking_destructors": bombs, "states": fr.states, "transitions": fr.transitions, "exhaustive": fr.exhaustive}));
+        }
+        free_info = json!(infos);
+    }
+    // ---- the deep history, then a serde round trip (the copy must carry the whole generation range)
+    if prop == "C06" && unknown == 0 {
+        for cyc in [if q { 70_000usize } else { 140_000 }, 32_767, 32_768, 32_769] {
+            if let Some(why) = deep::cycles_then_round_trip(cyc) {
+                unknown += emit_simple(&prop, "round-trip|deep-cycle|-|copy-disagrees-on-ids", &why, &known, json!({"engine": "deep", "cycles": cyc}));
+                break;
+            }
+        }
+    }
     // ---- boundary windows ------------------------------------------------------------
     let mut reports: Vec<Report> = Vec::new();
     let mut seed_panics: Vec<String> = Vec::new();
@@ -1143,8 +1182,11 @@ fn cmd_deep(args: &[String]) -> i32 {
     judge.target = target;
     judge.retire_min = retire_min;
     let deep_profile = base_plan.profile;
+    // the cycle at which the recycled slot is given up (the deep run stops at its first failure, which may
+    // come just before that cycle: then the plain search for the boundary places the windows)
+    let boundary: Option<usize> = deep.retirements.first().map(|x| x.0).or_else(|| deep::find_retirement(70_000));
     if unknown == 0 {
-        if let Some(&(r, _)) = deep.retirements.first() {
+        if let Some(r) = boundary {
             let slot_sets: Vec<usize> = if q { vec![1] } else { vec![1, 2] };
             for slots in slot_sets {
                 let mut inits = Vec::new();
@@ -1183,7 +1225,7 @@ fn cmd_deep(args: &[String]) -> i32 {
         }
         // ---- E2b: model-free enumeration of every new_node/remove history from the seeds ----
         if prop == "C06" || prop == "C12" {
-            if let Some(&(r, _)) = deep.retirements.first() {
+            if let Some(r) = boundary {
                 use rayon::prelude::*;
                 let (depth, max_live) = if q { (9, 3) } else { (11, 3) };
                 let mut seeds = Vec::new();
@@ -1266,6 +1308,7 @@ fn cmd_deep(args: &[String]) -> i32 {
             "seeds_whose_preparation_panicked": seed_panics,
             "deep_run_two_slots": {"cycles": batch_cycles, "is_removed_evaluations": batch_checks},
             "id_history_dfs": idh,
+            "model_free_closure": free_info,
         });
         let mut ev = evidence_json(&prop, &tier, &reports, unknown, extra, vec![
             format!("the generation counter is exercised to {} cycles per slot; a wider counter is reported as 'no retirement below the cap'", deep.cycles_done),
@@ -1316,7 +1359,7 @@ fn main() {
                             "init": w.init, "ops": w.path.iter().map(|o| o.text()).collect::<Vec<_>>(), "failing_op": w.op.map(|o| o.text()).or(w.note.clone()),
                             "arena_before_the_call": w.arena, "detail": "the library call did not return within 20 s"});
                         let _ = std::fs::write(&path, serde_json::to_string_pretty(&j).unwrap());
-                        if hang_props.contains(&prop.as_str()) {
+                        if hang_props.contains(&prop.as_str()) || (prop == "C12" && w.removed_involved) {
                             if let Some(ev) = arg(&args2, "--evidence") {
                                 write_json(&ev, &json!({
                                     "property_id": prop, "tier": arg(&args2, "--tier").unwrap_or("quick".into()), "seed": seed() as i64, "level": "model_checking",
